@@ -79,6 +79,7 @@ type Connection struct {
 	closeOnce sync.Once
 	closed    chan struct{}
 	ready     chan struct{} // Closed when handshake completes and reader/writer are set
+	tornDown  atomic.Bool   // Set by the first handleDisconnect report for this connection
 
 	// Frame processing
 	frameCh    chan *protocol.Frame // Sequential frame dispatch channel (stream-ordered frames)
